@@ -2,7 +2,7 @@
 """Build CppUTest straight from the repository's working tree plus one harness.
 
 usage: build.py <variant> <harness.cpp> [--engine rc|fuzz]   -> prints path of the binary
-       build.py --warm                                        -> builds every (variant, harness) registered in checks.json
+       build.py --warm                                        -> builds every (variant, harness) registered in checks.d/*.json
 
 The library objects are keyed by a content hash of every file under
 <repo>/include and <repo>/src, so any edit in the repository forces a rebuild of
@@ -199,10 +199,16 @@ def build_harness(variant, harness, engine):
 
 
 def warm():
-    with open(os.path.join(VERIF, "checks.json")) as f:
-        checks = json.load(f)
+    checks = {}
+    d = os.path.join(VERIF, "checks.d")
+    for fn in sorted(os.listdir(d)):
+        if fn.endswith(".json"):
+            with open(os.path.join(d, fn)) as f:
+                checks[fn[:-5]] = json.load(f)
     jobs = []
     for pid, c in sorted(checks.items()):
+        if not c.get("claimed"):
+            continue
         for t in c.get("targets", []):
             jobs.append((t["variant"], t["harness"], "rc"))
             if t.get("fuzz_variant"):
